@@ -7,6 +7,7 @@ from typing import (
     Awaitable,
     Callable,
     MutableMapping,
+    Tuple,
 )
 
 from ..concurrency import run_in_threadpool
@@ -55,9 +56,27 @@ class NextResponse(StreamingResponse):
     This is a response object for middleware.
     """
 
+    # The "set-cookie" lines of the wrapped application. `Headers` folds repeated
+    # names into one comma separated value, which is not valid for cookies.
+    raw_set_cookies: Tuple[str, ...] = ()
+
     async def render_stream(self) -> AsyncGenerator[bytes, None]:
         async for chunk in self.iterable:
             yield chunk
+
+    def list_headers(self, *, as_bytes):
+        headers = super().list_headers(as_bytes=as_bytes)
+        folded = ", ".join(self.raw_set_cookies)
+        if len(self.raw_set_cookies) > 1 and self.headers.get("set-cookie") == folded:
+            # untouched by the middleware: send the lines as the application did
+            headers = [h for h in headers if h[0] not in ("set-cookie", b"set-cookie")]
+            for line in self.raw_set_cookies:
+                headers.append(
+                    (b"set-cookie", line.encode("latin-1"))
+                    if as_bytes
+                    else ("set-cookie", line)
+                )
+        return headers
 
     @classmethod
     async def from_app(cls, app: ASGIApp, request: NextRequest) -> "NextResponse":
@@ -66,18 +85,22 @@ class NextResponse(StreamingResponse):
         """
         status_code = 200
         headers = Headers()
+        set_cookies: Tuple[str, ...] = ()
         body = CachedStream()
 
         async def send(message: Message) -> None:
             nonlocal status_code
             nonlocal headers
+            nonlocal set_cookies
             if message["type"] == "http.response.start":
                 status_code = message["status"]
-                headers = Headers(
-                    [
-                        (k.decode("latin-1"), v.decode("latin-1"))
-                        for k, v in message.get("headers", [])
-                    ]
+                response_headers = [
+                    (k.decode("latin-1"), v.decode("latin-1"))
+                    for k, v in message.get("headers", [])
+                ]
+                headers = Headers(response_headers)
+                set_cookies = tuple(
+                    v for k, v in response_headers if k.lower() == "set-cookie"
                 )
             elif message["type"] == "http.response.body":
                 await body.push(message.get("body", b""))
@@ -85,7 +108,9 @@ class NextResponse(StreamingResponse):
                     await body.push_eof()
 
         await app(request, request._receive, send)
-        return NextResponse(body, status_code, headers)
+        response = NextResponse(body, status_code, headers)
+        response.raw_set_cookies = set_cookies
+        return response
 
 
 def middleware(
